@@ -81,11 +81,14 @@ pub struct Case {
   pub a: Vec<i64>,
   pub f: Vec<f64>,
   pub s: Vec<String>,
+  /// cases (sub-check, integer arguments) that were evaluated on the same fresh thread before this one when it failed in
+  /// an order-sensitive pass (descending / shuffled / concurrent / strided walk); replay evaluates them first
+  pub pre: Vec<(String, Vec<i64>)>,
 }
 
 impl Case {
   pub fn ints(a: &[i64]) -> Self {
-    Case { a: a.to_vec(), f: vec![], s: vec![] }
+    Case { a: a.to_vec(), f: vec![], s: vec![], pre: vec![] }
   }
   pub fn to_json(&self) -> Value {
     let mut m = Map::new();
@@ -98,6 +101,9 @@ impl Case {
     if !self.s.is_empty() {
       m.insert("s".into(), json!(self.s));
     }
+    if !self.pre.is_empty() {
+      m.insert("prelude".into(), json!(self.pre.iter().map(|(s, a)| json!({"sub": s, "a": a})).collect::<Vec<_>>()));
+    }
     Value::Object(m)
   }
   pub fn from_json(v: &Value) -> Self {
@@ -108,7 +114,8 @@ impl Case {
       v.get("f").and_then(|x| x.as_array()).map(|x| x.iter().map(|y| y.as_f64().unwrap_or(0.0)).collect()).unwrap_or_default()
     };
     let s = v.get("s").and_then(|x| x.as_array()).map(|x| x.iter().map(|y| y.as_str().unwrap_or("").to_string()).collect()).unwrap_or_default();
-    Case { a, f, s }
+    let pre = v.get("prelude").and_then(|x| x.as_array()).map(|x| x.iter().map(|y| (y.get("sub").and_then(|z| z.as_str()).unwrap_or("").to_string(), y.get("a").and_then(|z| z.as_array()).map(|z| z.iter().map(|w| w.as_i64().unwrap_or(0)).collect()).unwrap_or_default())).collect()).unwrap_or_default();
+    Case { a, f, s, pre }
   }
 }
 
@@ -281,6 +288,8 @@ pub struct Out {
   pub viol_count: u64,
   pub notes: Vec<String>,
   pub exhaustive: BTreeMap<String, bool>,
+  /// what an order-sensitive pass has evaluated before the current case on this thread (attached to violations)
+  pub cur_prelude: Vec<(String, Vec<i64>)>,
 }
 
 pub fn hash64(parts: &[i64]) -> u64 {
@@ -363,6 +372,10 @@ impl Out {
 
   /// Record a violation. Returns true when it is NOT covered by an open known finding.
   pub fn fail(&mut self, env: &Env, v: Viol) -> bool {
+    let mut v = v;
+    if v.case.pre.is_empty() && !self.cur_prelude.is_empty() {
+      v.case.pre = self.cur_prelude.clone();
+    }
     if !env.strict {
       if let Some(f) = env.findings.matches(&v) {
         *self.known.entry(f.id.clone()).or_insert(0) += 1;
@@ -530,45 +543,118 @@ impl Reverse {
     }
     self.n += 1;
   }
-  /// Two extra passes over the kept sample, each on a fresh thread (so that thread-local memos of the library start
-  /// empty): descending, then in a seed-determined shuffled order. An answer that depends on which query came first
-  /// on the thread differs from the oracle in at least one of ascending (the sweep itself) / descending / shuffled.
+  /// Extra passes over the kept sample, each on fresh threads (so that thread-local memos of the library start empty):
+  /// descending, in a seed-determined shuffled order, and concurrently on 8 threads (interleaved slices of the
+  /// shuffled order, so that neighbouring cases run at the same time on different threads). An answer that depends on
+  /// which query came first on the thread, or on what other threads are doing, differs from the oracle in one of them.
   pub fn run(self, env: &Env, out: &mut Out, eval: &(dyn Fn(&Env, &mut Out, &str, &Case) + Sync)) {
     let kept = &self.kept;
-    let desc = std::thread::scope(|sc| {
-      sc.spawn(|| {
-        let mut o = Out::new();
-        for (sub, case) in kept.iter().rev() {
-          run_case(env, &mut o, sub, case, eval);
-          o.class("reverse_pass_cases");
-        }
-        o
-      })
-      .join()
-    });
-    match desc {
-      Ok(o) => out.merge(o),
-      Err(_) => out.note("reverse pass thread panicked outside a guarded call".to_string()),
+    if kept.is_empty() {
+      return;
     }
+    let pass = |order: &[usize], class: &'static str| -> Out {
+      let mut o = Out::new();
+      let first = order.first().map(|&i| (kept[i].0.clone(), kept[i].1.a.clone()));
+      let mut prev: Option<(String, Vec<i64>)> = None;
+      for &i in order {
+        let (sub, case) = &kept[i];
+        o.cur_prelude.clear();
+        if case.f.is_empty() && case.s.is_empty() {
+          if let Some(f) = &first {
+            if prev.is_some() {
+              o.cur_prelude.push(f.clone());
+            }
+          }
+          if let Some(p) = &prev {
+            if Some(p) != first.as_ref() {
+              o.cur_prelude.push(p.clone());
+            }
+          }
+        }
+        run_case(env, &mut o, sub, case, eval);
+        o.class(class);
+        prev = Some((sub.clone(), case.a.clone()));
+      }
+      o.cur_prelude.clear();
+      o
+    };
+    let on_thread = |order: Vec<usize>, class: &'static str, out: &mut Out| {
+      let r = std::thread::scope(|sc| sc.spawn(|| pass(&order, class)).join());
+      match r {
+        Ok(o) => out.merge(o),
+        Err(_) => out.note(format!("{} thread panicked outside a guarded call", class)),
+      }
+    };
+    on_thread((0..kept.len()).rev().collect(), "reverse_pass_cases", out);
     let mut order: Vec<usize> = (0..kept.len()).collect();
     order.sort_by_key(|&i| crate::model::mix(i as u64 ^ env.seed.wrapping_mul(0x9E3779B97F4A7C15)));
-    let shuf = std::thread::scope(|sc| {
+    on_thread(order.iter().copied().take(kept.len() / 2 + 1).collect(), "shuffled_pass_cases", out);
+    // concurrent pass: 8 threads, thread t takes positions t, t+8, ... of a differently shuffled order
+    let mut order2: Vec<usize> = (0..kept.len()).collect();
+    order2.sort_by_key(|&i| crate::model::mix(i as u64 ^ env.seed.wrapping_mul(0xD1B54A32D192ED03) ^ 0x5bd1));
+    order2.truncate(kept.len() / 2 + 1);
+    const NT: usize = 8;
+    let results: Vec<Option<Out>> = std::thread::scope(|sc| {
+      let pass = &pass;
+      let order2 = &order2;
+      let hs: Vec<_> = (0..NT)
+        .map(|t| {
+          sc.spawn(move || {
+            let mine: Vec<usize> = order2.iter().copied().skip(t).step_by(NT).collect();
+            pass(&mine, "concurrent_pass_cases")
+          })
+        })
+        .collect();
+      hs.into_iter().map(|h| h.join().ok()).collect()
+    });
+    for r in results {
+      match r {
+        Some(o) => out.merge(o),
+        None => out.note("concurrent pass thread panicked outside a guarded call".to_string()),
+      }
+    }
+  }
+}
+
+/// Strided walks: proptest generates (start, stride, length); the cases `make(start + k*stride)` for k = 0..length are
+/// evaluated in that order on one fresh thread. This is how callers iterate (every day, every week, every 30 days,
+/// backwards), and it is what exposes a per-thread cursor / "last result" shortcut that is only right for some strides.
+/// A violation carries the part of the walk before it as its prelude, so its replay file reproduces it.
+pub fn stride_walks(env: &Env, out: &mut Out, sub: &str, walks: u32, stream: u64, lo: i64, hi: i64, max_stride: i64, make: &(dyn Fn(i64) -> Vec<i64> + Sync), eval: &(dyn Fn(&Env, &mut Out, &str, &Case) + Sync)) {
+  if walks == 0 || hi - lo < 2 {
+    return;
+  }
+  let strat = (lo..hi, proptest::prop_oneof![3 => 1i64..=3, 6 => 4i64..=45.min(max_stride), 2 => 1i64..=max_stride], proptest::bool::ANY, 6i64..=40).prop_map(|(s, st, back, len)| Case::ints(&[s, if back { -st } else { st }, len]));
+  let walk_sub = format!("{}~walk", sub);
+  let inner = sub.to_string();
+  let walker = |e: &Env, o: &mut Out, _s: &str, c: &Case| {
+    let (start, stride, len) = (c.a[0], c.a[1], c.a[2]);
+    let r = std::thread::scope(|sc| {
       sc.spawn(|| {
-        let mut o = Out::new();
-        for &i in order.iter().take(kept.len() / 2 + 1) {
-          let (sub, case) = &kept[i];
-          run_case(env, &mut o, sub, case, eval);
-          o.class("shuffled_pass_cases");
+        let mut w = Out::new();
+        let mut done: Vec<(String, Vec<i64>)> = vec![];
+        for k in 0..len {
+          let x = start + k * stride;
+          if x < lo || x >= hi {
+            break;
+          }
+          let a = make(x);
+          w.cur_prelude = done.clone();
+          run_case(e, &mut w, &inner, &Case::ints(&a), eval);
+          w.class("strided_walk_cases");
+          done.push((inner.clone(), a));
         }
-        o
+        w.cur_prelude.clear();
+        w
       })
       .join()
     });
-    match shuf {
-      Ok(o) => out.merge(o),
-      Err(_) => out.note("shuffled pass thread panicked outside a guarded call".to_string()),
+    match r {
+      Ok(w) => o.merge(w),
+      Err(_) => o.note("strided walk thread panicked outside a guarded call".to_string()),
     }
-  }
+  };
+  prop_run(env, out, &walk_sub, walks, stream, strat, &walker);
 }
 
 /// Drive a sub-check with proptest: `cases` generated cases, shrinking on the first violation that no
@@ -917,7 +1003,28 @@ pub fn run_replay(p: &dyn Prop, env: &Env, file: &str) -> i32 {
   let sub = v.get("sub").and_then(|x| x.as_str()).unwrap_or("").to_string();
   let case = Case::from_json(v.get("case").unwrap_or(&Value::Null));
   let mut out = Out::new();
-  run_case(env, &mut out, &sub, &case, &|e, o, s, c| p.eval(e, o, s, c));
+  if case.pre.is_empty() {
+    run_case(env, &mut out, &sub, &case, &|e, o, s, c| p.eval(e, o, s, c));
+  } else {
+    // order-sensitive failure: evaluate what preceded it on a fresh thread first (verdicts discarded), then the case
+    let r = std::thread::scope(|sc| {
+      sc.spawn(|| {
+        let mut scratch = Out::new();
+        for (psub, a) in &case.pre {
+          run_case(env, &mut scratch, psub, &Case::ints(a), &|e, o, s, c| p.eval(e, o, s, c));
+        }
+        let mut o = Out::new();
+        let mut c = case.clone();
+        c.pre.clear();
+        run_case(env, &mut o, &sub, &c, &|e, o, s, c| p.eval(e, o, s, c));
+        o
+      })
+      .join()
+    });
+    if let Ok(o) = r {
+      out.merge(o);
+    }
+  }
   if out.viol_count > 0 {
     for x in &out.viols {
       println!("VIOLATION property={} replay={}", p.id(), file);
